@@ -47,12 +47,16 @@ STAGES = [
 ]
 
 
-def tree_files(draw, P, M, M2):
-    """Files of the package tree; returns (files, info)."""
+def tree_files(draw, P, M, M2, flip=None):
+    """Files of the package tree; returns (files, info).  `flip` = info of another tree: the same tree except for the
+    layout of the plain module (passes the names on <-> defines them itself), for history cases."""
     core_all = draw(st.sampled_from([None, None, ["alpha", "beta"], ["alpha", "beta", "gamma", "KAPPA"]]))
     init_kind = draw(st.sampled_from(["empty", "named", "star", "all", "alias", "submodule"]))
     sub_init_kind = draw(st.sampled_from(["empty", "deep", "chain"]))
     plain_kind = draw(st.sampled_from(["reexport", "star", "own", "own_same"]))
+    if flip is not None:
+        init_kind, sub_init_kind = flip["init"], flip["sub_init"]
+        plain_kind = {"reexport": "own_same", "own_same": "reexport", "star": "own_same", "own": "reexport"}[flip["plain"]]
     return build_tree(P, M, M2, core_all, init_kind, sub_init_kind, plain_kind)
 
 
@@ -174,7 +178,20 @@ def cases(draw):
     uid = draw(st.integers(0, 16 ** 6 - 1))
     case = draw(one_case(uid))
     if draw(st.integers(0, 5)) == 0:
-        case["after"] = draw(one_case(uid))
+        if draw(st.booleans()):
+            case["after"] = draw(one_case(uid))
+        else:
+            # the SAME client in a tree whose plain module has the other layout; the client imports a name that the
+            # plain module passes on in one layout and defines itself in the other, and the stage is one that redirects
+            P, M, M2 = f"vq{uid:06x}p", f"vq{uid:06x}m", f"vq{uid:06x}o"
+            main_plain = draw(st.sampled_from(["reexport", "own_same"]))
+            other = {"reexport": "own_same", "own_same": "reexport"}[main_plain]
+            case["files"], case["tree"] = tree_files(draw, P, M, M2, flip=dict(case["tree"], plain=other))
+            case["client"] += f"from {M} import delta\nRESULT.append(delta)\n"
+            case["forms"] = sorted(set(case["forms"]) | {"reexport-chain"})
+            case["stage"] = list(draw(st.sampled_from([("tracing", "fix_reimported_names"), ("main", "format_code"), ("main", "format_file"), ("tracing", "fix_starred_imports")])))
+            files, info = tree_files(draw, P, M, M2, flip=case["tree"])
+            case["after"] = dict(case, files=files, tree=info)
         case["forms"] = sorted(set(case["forms"]) | {"after-another-tree-with-the-same-names"})
     return case
 
